@@ -58,22 +58,23 @@ var c11Initialisms = map[string]bool{"api": true, "cpu": true, "dns": true, "htm
 
 func title(w string) string { return strings.ToUpper(w[:1]) + w[1:] }
 
-// renderTag spells a word list in one of the tag styles.
-func renderTag(words []string, style string, goCaps bool) string {
+// renderTag spells a word list in one of the four tag styles DecodeGoTags
+// documents (snake_case, kebab-case, lowerCamelCase, UpperCamelCase).  In the
+// camel styles an initialism is written fully capitalised (hostID, JSONFile),
+// except as the leading word of a lowerCamel tag (jsonFile).
+func renderTag(words []string, style string) string {
 	switch style {
 	case "snake":
 		return strings.Join(words, "_")
 	case "kebab":
 		return strings.Join(words, "-")
-	case "UPPER_SNAKE":
-		return strings.ToUpper(strings.Join(words, "_"))
 	}
 	var b strings.Builder
 	for i, w := range words {
 		switch {
 		case i == 0 && style == "lowerCamel":
 			b.WriteString(w)
-		case goCaps && c11Initialisms[w]:
+		case c11Initialisms[w]:
 			b.WriteString(strings.ToUpper(w))
 		default:
 			b.WriteString(title(w))
@@ -133,7 +134,6 @@ func genC11(rt *rapid.T) C11Case {
 		prof.SkipClasses = []string{"unexported", "dash", "chan", "func"}
 		noteTag("skip-classes-on")
 	}
-	upperHostile := rapid.IntRange(0, 19).Draw(rt, "upper_hostile_words") == 0
 	prof.Tagger = func(t *rapid.T, f *shape.Field, depth int) {
 		var parts []string
 		tagPct := 35
@@ -142,13 +142,7 @@ func genC11(rt *rapid.T) C11Case {
 		}
 		if rapid.IntRange(0, 99).Draw(t, "dials_tag") < tagPct {
 			words := genTagWords(t)
-			style := rapid.SampledFrom([]string{"snake", "kebab", "lowerCamel", "UpperCamel", "UPPER_SNAKE"}).Draw(t, "tag_style")
-			if upperHostile && style == "UPPER_SNAKE" {
-				words = append(words, rapid.SampledFrom(c11HostileUpperWords).Draw(t, "hostile_word"))
-				if rapid.Bool().Draw(t, "hostile_first") {
-					words[0], words[len(words)-1] = words[len(words)-1], words[0]
-				}
-			}
+			style := rapid.SampledFrom([]string{"snake", "kebab", "lowerCamel", "UpperCamel"}).Draw(t, "tag_style")
 			if (style == "snake" || style == "kebab") && rapid.IntRange(0, 5).Draw(t, "tag_digit") == 0 {
 				// a digit run as a whole component, never the first
 				words = append(words, rapid.SampledFrom([]string{"2", "64", "0"}).Draw(t, "tag_digits"))
@@ -157,8 +151,7 @@ func genC11(rt *rapid.T) C11Case {
 					words[n-1], words[n-2] = words[n-2], words[n-1]
 				}
 			}
-			goCaps := rapid.Bool().Draw(t, "tag_go_caps")
-			tag := renderTag(words, style, goCaps)
+			tag := renderTag(words, style)
 			c.TagWords[tag] = words
 			parts = append(parts, fmt.Sprintf(`dials:"%s"`, tag))
 			noteTag("tag:" + style)
@@ -174,7 +167,7 @@ func genC11(rt *rapid.T) C11Case {
 			case 2:
 				name = strings.Join(words, "_") + "_2"
 			default:
-				name = renderTag(words, "UpperCamel", true) + "_x"
+				name = renderTag(words, "UpperCamel") + "_x"
 			}
 			parts = append(parts, fmt.Sprintf(`dialsenv:"%s"`, name))
 		}
@@ -187,9 +180,8 @@ func genC11(rt *rapid.T) C11Case {
 	}
 	c.Shape = shape.Gen(rt, prof)
 
-	// Deliberate name collision (rare): a root leaf whose dials tag spells the
-	// derived name of a nested leaf, or whose Go name is the concatenation of
-	// the Go names on that leaf's path.
+	// Deliberate shared variable (rare): a root leaf whose dials tag spells
+	// the derived name of a nested leaf.
 	if ls, err := c11Leaves(c.Shape, c.TagWords); err == nil && rapid.IntRange(0, 24).Draw(rt, "collide") == 0 {
 		var cands []c11Leaf
 		for _, l := range ls {
@@ -205,22 +197,18 @@ func genC11(rt *rapid.T) C11Case {
 				used[f.Name] = true
 			}
 			nf := shape.Field{Kind: "leaf", Type: x.Type}
-			adjacent := false
-			for i := 1; i < len(words); i++ {
-				adjacent = adjacent || (c11Initialisms[words[i-1]] && c11Initialisms[words[i]])
-			}
-			if rapid.Bool().Draw(rt, "collide_by_go_name") && !used[x.FlatName] && !x.Embedded && !x.InnerTag && !x.OwnTag && !adjacent && x.FlatName != "" {
-				nf.Name, nf.Words = x.FlatName, words
-				noteTag("collision:go-name")
-			} else {
-				nf.Name, nf.Words = shape.GenName(rt, used)
-				tag := strings.Join(words, "_")
-				c.TagWords[tag] = words
-				nf.Tag = fmt.Sprintf(`dials:"%s"`, tag)
-				noteTag("collision:tag")
-			}
+			nf.Name, nf.Words = shape.GenName(rt, used)
+			tag := strings.Join(words, "_")
+			c.TagWords[tag] = words
+			nf.Tag = fmt.Sprintf(`dials:"%s"`, tag)
+			noteTag("collision:tag")
 			c.Shape.Fields = append(c.Shape.Fields, nf)
 		}
+	}
+	// The flattened Go field names (concatenated Go names along each path)
+	// must be distinct: rename by construction ({Host{Port}; HostPort}).
+	if c11RepairFlatNames(&c.Shape, c.TagWords) {
+		noteTag("flat-name-repaired")
 	}
 
 	T, err := c.Shape.Build()
@@ -326,6 +314,70 @@ func genC11(rt *rapid.T) C11Case {
 	sort.Strings(c.GenTags)
 	_ = allNames
 	return c
+}
+
+var c11RenameWords = []string{"alpha", "bravo", "delta", "gamma", "zone", "node", "limit", "window"}
+
+// c11RepairFlatNames renames generated leaves until no two configurable
+// leaves flatten to the same Go field name; it reports whether it renamed.
+func c11RepairFlatNames(s *shape.Shape, tagWords map[string][]string) bool {
+	renamed := false
+	for iter := 0; iter < 40; iter++ {
+		leaves, err := c11Leaves(*s, tagWords)
+		if err != nil {
+			return renamed
+		}
+		seen := map[string]c11Leaf{}
+		target := ""
+		for _, l := range leaves {
+			if l.Skipped {
+				continue
+			}
+			if o, ok := seen[l.FlatName]; ok {
+				switch {
+				case !l.Embedded:
+					target = l.Path
+				case !o.Embedded:
+					target = o.Path
+				default:
+					return renamed // two leaves of fixed embedded types: left to Run's discard
+				}
+				break
+			}
+			seen[l.FlatName] = l
+		}
+		if target == "" {
+			return renamed
+		}
+		names := strings.Split(target, ".")
+		fs := s.Fields
+		for depth, n := range names {
+			for i := range fs {
+				if fs[i].Name != n {
+					continue
+				}
+				if depth < len(names)-1 {
+					fs = fs[i].Fields
+					break
+				}
+				sib := map[string]bool{}
+				for _, f := range fs {
+					sib[f.Name] = true
+				}
+				for k := 0; ; k++ {
+					w := c11RenameWords[(iter+k)%len(c11RenameWords)]
+					fs[i].Name += title(w)
+					fs[i].Words = append(append([]string{}, fs[i].Words...), w)
+					if !sib[fs[i].Name] {
+						break
+					}
+				}
+				renamed = true
+				break
+			}
+		}
+	}
+	return renamed
 }
 
 type c11Group struct {
@@ -555,7 +607,7 @@ func runC11(c C11Case) vrt.Verdict {
 	if panicked != nil {
 		msg := fmt.Sprint(panicked)
 		if flatCollision && strings.Contains(msg, "duplicate field") {
-			return vrt.KeyedViolationf("flatten-duplicate-field", "env.Source.Value panicked on a config type whose flattened field names collide: %s", msg).With(false, labels...)
+			return vrt.Discardf("flattened field names collide")
 		}
 		return vrt.KeyedViolationf("panic", "env.Source.Value panicked: %s", msg).With(false, labels...)
 	}
@@ -564,8 +616,6 @@ func runC11(c C11Case) vrt.Verdict {
 		switch {
 		case l.EnvTag:
 			return ""
-		case l.UpperHostile:
-			return "upper-tag-initialism-split"
 		case l.CapsJoin:
 			return "tag-join-lost-boundary"
 		}
@@ -667,18 +717,20 @@ func runC11(c C11Case) vrt.Verdict {
 }
 
 const c11Rule = "config struct types from the shape grammar restricted to leaves the env source casts from text (bool, ints, uints, floats, complex, string, time.Duration, pointers to scalars, slices of scalars, maps with string keys incl. sets and map[string][]string, named collection types) plus inert leaves it cannot fill (time.Time, text-unmarshalable structs, arrays, uintptr, **int, net.IP), nested / pointer / embedded structs to depth 3, skipped fields in half the cases; " +
-	"`dials` tags at any level rendered from word lists in snake, kebab, lowerCamel, UpperCamel (Go-style initialisms optional) and UPPER_SNAKE (digit runs only as whole snake/kebab components), `dialsenv` tags on leaves, optional prefix; " +
+	"`dials` tags at any level rendered from word lists in snake, kebab, lowerCamel, UpperCamel, the four spellings DecodeGoTags documents (initialisms in camel tags come from the golint list and are fully capitalised except as the leading word of a lowerCamel tag; every other word has >= 3 letters; digit runs only as whole non-leading snake/kebab components), `dialsenv` tags on leaves, optional prefix; " +
 	"a subset of variables set (10/50/90 % density) with boundary-biased values and quoting-heavy strings rendered by the harness (strconv, Duration.String, the documented comma/colon collection syntax with Go quoting); noise variables derived from real names (wrong case, missing/extra prefix, dropped or doubled separators, path-joined name of a dialsenv leaf, names of skipped fields, prefixes/suffixes, sibling joins); in 1/4 of the cases one unparsable or just-out-of-range text. " +
 	"Oracle: expected variable name known by construction (dialsenv verbatim, else UPPER_SNAKE of tag/name words along the path, untagged embedded structs contribute nothing, prefix + '_' in front of every name); result has the requested type; a leaf is non-nil iff its variable is present and then equals the generated value; defaults stacked with the result equal defaults with exactly those leaves replaced; a bad text gives an error and an invalid Value. " +
 	"non-trivial = (>=2 levels of nesting or a dials tag on an inner level) and >=2 variables set; distinct = distinct case JSON"
 
 var c11Assumptions = []string{
 	"the environment is process-global: cases run sequentially, every touched variable (all leaf names of the case, noise, skipped-field names) is saved, cleared before the call and restored afterwards",
-	"map keys are non-empty (the empty key is the separately tracked splitMap sentinel defect C15)",
+	"the empty map key is written quoted (\"\":v), as the repaired splitMap accepts it",
 	"named scalar leaf types are excluded until C16 is repaired (C11_NAMED_SCALARS=1 enables them); *[]T, *map and [][]T are excluded because they panic (C11_PANICKY_COLLECTIONS=1 enables them)",
 	"integers are parsed with base 0 (as parse.parseNumber does), so a small share of integer texts carry a 0x prefix or a + sign",
 	"two leaves whose names coincide legitimately share one variable; such a group is only given a value when all its leaves have the same type",
-	"root-cause keys (known_findings.json): tag-join-lost-boundary = a leaf below a level whose dials tag ends in an upper-case letter (MY_HOST, hostID) is mis-named; upper-tag-initialism-split = an UPPER_SNAKE tag containing IDLE/IDS/URLS/VMS is mis-named (1 case in 20 draws such words); flatten-duplicate-field = two leaves whose Go names concatenate to the same identifier panic in reflect.StructOf; failures are given these keys only for leaves classified as such by construction",
+	"ALL-CAPS / UPPER_SNAKE `dials` tags are outside the domain: the env source decodes dials tags with caseconversion.DecodeGoTags, which documents only CamelCase, snake_case and kebab-case with fully capitalised acronyms and reads an all-caps word as an acronym run by design",
+	"the configurable leaves flatten to distinct Go field names (concatenated Go names along the path): the generator renames by construction ({Host{Port}; HostPort} becomes HostPortAlpha); a replayed case that still collides and panics with 'duplicate field' is discarded",
+	"a failure on a leaf below a level whose camel tag ends in a capitalised initialism (hostID, FileJSON) carries the root-cause key tag-join-lost-boundary; the key only classifies, it suppresses nothing unless listed in known_findings.json",
 	"stacking goes through the verif-tagged export VerifCompose because reflect-built types cannot be type arguments of Config",
 }
 
